@@ -35,10 +35,10 @@ func generateFullIntegrationDiagramHelper(m *sysl.Module,
 	integrationPairs *[]integrationPair) (string, error) {
 	var result string
 	result = mermaid.GeneratedHeader + "graph TD\n"
-	for appName, appValue := range m.Apps {
-		endPoints := appValue.Endpoints
-		for _, endPoint := range endPoints {
-			statements := endPoint.Stmt
+	for _, appName := range mermaid.SortedKeys(m.Apps) {
+		endPoints := m.Apps[appName].Endpoints
+		for _, epName := range mermaid.SortedKeys(endPoints) {
+			statements := endPoints[epName].Stmt
 			result += printIntegrationDiagramStatements(m, statements, appName, integrationPairs)
 		}
 	}
@@ -57,8 +57,8 @@ func generateIntegrationDiagramHelper(m *sysl.Module, appName string,
 	}
 	endPoints := m.Apps[appName].Endpoints
 	// For every endpoint, the statements are retrieved and we pass it to the printer to print appropriate mermaid code
-	for _, endPoint := range endPoints {
-		statements := endPoint.Stmt
+	for _, epName := range mermaid.SortedKeys(endPoints) {
+		statements := endPoints[epName].Stmt
 		result += printIntegrationDiagramStatements(m, statements, appName, integrationPairs)
 	}
 	return result, nil
@@ -72,19 +72,20 @@ func generateMultipleAppIntegrationDiagramHelper(m *sysl.Module, appNames []stri
 		if app := m.Apps[appName]; app != nil {
 			endPoints := app.Endpoints
 			result += printClassStatement(appName)
-			for _, endPoint := range endPoints {
-				statements := endPoint.Stmt
+			for _, epName := range mermaid.SortedKeys(endPoints) {
+				statements := endPoints[epName].Stmt
 				result += printIntegrationDiagramStatements(m, statements, appName, integrationPairs)
 			}
 		}
 	}
 
 	// Get all applications which call an App in appNames
-	for currentApp, appValue := range m.Apps {
-		endPoints := appValue.Endpoints
-		for _, endPoint := range endPoints {
+	for _, currentApp := range mermaid.SortedKeys(m.Apps) {
+		endPoints := m.Apps[currentApp].Endpoints
+		for _, epName := range mermaid.SortedKeys(endPoints) {
 			for _, targetApp := range appNames {
-				result += printIntegrationDiagramStatementsTargetedApp(m, endPoint.Stmt, currentApp, integrationPairs, targetApp)
+				result += printIntegrationDiagramStatementsTargetedApp(
+					m, endPoints[epName].Stmt, currentApp, integrationPairs, targetApp)
 			}
 		}
 	}
